@@ -72,7 +72,13 @@ def build_link(rng, bits, sps, R, shape, n_pol, with_fibre, wide=False):
     BW = min(BW, 0.49 * fs)
     pol = "xy"[int(rng.integers(2))]
     desc = dict(Vpi=Vpi, loss_dB=loss, ER_dB=ER, P=Pw, r=r, R_load=R_load, BW_over_R=BW / R, pol=pol)
-    v = D.DAC(bits, bias=0.0, Vout=Vpi, pulse_shape=shape)
+    gk = {}
+    if shape == "gaussian" and rng.integers(2):          # super-Gaussian orders and explicit widths up to one slot (pulses that stay inside their slot)
+        gk = {"m": int(rng.integers(1, 5))}
+        if rng.integers(2):
+            gk["T"] = int(rng.integers(max(2, (sps + 1) // 2), sps + 1))
+    desc["gaussian_args"] = gk
+    v = D.DAC(bits, bias=0.0, Vout=Vpi, pulse_shape=shape, **gk)
     n = v.len()
     if rng.integers(2):
         cw = T.optical_signal(np.full(n, np.sqrt(Pw), complex), n_pol=n_pol)
